@@ -72,22 +72,26 @@ Definition check_case (cs : case) : verdict :=
               forallb (fun u => ql_eqb (o_eval rc u) (map Qred (expected a b op u)))
                       (sample_set (2 * deg + 3) (o_U a ++ extra ++ o_U rc) lo hi)
        end in
-  (* correspondence: polynomial operands only *)
-  let polyb := match b with OCurve c => match o_W c with None => true | Some _ => false end | _ => true end in
-  match o_W a, polyb, to_curve a with
-  | None, true, Ok ca =>
+  (* correspondence: polynomial operands directly; rational operands through the numerator / denominator composition *)
+  let rat := match o_W a, b with
+             | Some _, _ => true
+             | None, OCurve c => match o_W c with Some _ => true | None => false end
+             | None, _ => false
+             end in
+  match to_curve a with
+  | Ok ca =>
       let m : option (res curve) :=
         match b, op with
         | _, ANeg => Some (c_neg ca)
-        | OCurve c, AAdd => match to_curve c with Ok cb => Some (c_add ca cb) | Err _ => None end
-        | OCurve c, ASub => match to_curve c with Ok cb => Some (c_sub ca cb) | Err _ => None end
-        | OCurve c, AMul => match to_curve c with Ok cb => Some (c_mul ca cb) | Err _ => None end
-        | OCurve c, ADiv => match to_curve c with Ok cb => Some (c_div ca cb) | Err _ => None end
+        | OCurve c, AAdd => match to_curve c with Ok cb => Some (if rat then c_add_r ca cb else c_add ca cb) | Err _ => None end
+        | OCurve c, ASub => match to_curve c with Ok cb => Some (if rat then c_sub_r ca cb else c_sub ca cb) | Err _ => None end
+        | OCurve c, AMul => match to_curve c with Ok cb => Some (if rat then c_mul_r ca cb else c_mul ca cb) | Err _ => None end
+        | OCurve c, ADiv => match to_curve c with Ok cb => Some (if rat then c_div_r ca cb else c_div ca cb) | Err _ => None end
         | OScalar s, AAdd | OScalar s, ARAdd => Some (c_add_scalar ca (repeat s (o_dim a)))
         | OScalar s, ASub => Some (c_add_scalar ca (repeat (- s) (o_dim a)))
         | OScalar s, AMul | OScalar s, ARMul => Some (c_mul_scalar ca s)
         | OScalar s, ADiv => Some (c_div_scalar ca s)
-        | OScalar s, ARDiv => Some (c_rdiv s ca)
+        | OScalar s, ARDiv => if rat then None else Some (c_rdiv s ca)
         | OVector v, AAdd | OVector v, ARAdd => Some (c_add_scalar ca v)
         | _, _ => None
         end in
@@ -99,5 +103,5 @@ Definition check_case (cs : case) : verdict :=
                         | _, _ => false
                         end) prop
       end
-  | _, _, _ => mkv true prop
+  | Err _ => mkv false prop
   end.
